@@ -1,532 +1,60 @@
-(* Totality_proofs — no-Panic / fuel / allocation-bound theorems for the hardened models of
-   Totality.v, universally quantified over ALL inputs (lists of N: in particular all byte lists,
-   valid or not).  Induction and arithmetic only; no sampling. *)
-From Calamine Require Import Prelude Ovba Ovba_proofs Col26 Totality.
+(* Totality_proofs — allocation bound of the sector-chain walk (Cfb.get_chain, the model of the
+   hardened Sectors::get_chain): whatever the allocation table, the file and the declared length,
+   the stream handed back and the capacity reserved for it are bounded by what the table can
+   address.  Termination / no-panic of the same function is Cfb_proofs.chain_total (C13). *)
+From Calamine Require Import Prelude Utf16 Cfb Cfb_proofs Totality.
 Open Scope N_scope.
 
-(* ========================================================================================== *)
-(* 1. decompress_h                                                                              *)
-(* ========================================================================================== *)
-(* a Vec knows its length *)
-Definition wf (v : vec) : Prop := v_len v = N.of_nat (length (v_rev v)).
-
-Lemma wf_empty : wf vec_empty.
-Proof. reflexivity. Qed.
-
-Lemma wf_push : forall v b, wf v -> wf (vec_push v b).
-Proof. intros v b H. unfold wf, vec_push in *. cbn [v_len v_rev length]. lia. Qed.
-
-Lemma wf_extend : forall v r, wf v -> wf (vec_extend_rev v r).
+Lemma get_slice_bound : forall s id r sl s' r',
+  get s id r = Ok (sl, s', r') -> lenN sl <= ssize s /\ ssize s' = ssize s.
 Proof.
-  intros v r H. unfold wf, vec_extend_rev in *. cbn [v_len v_rev]. rewrite app_length. lia.
+  intros s id r sl s' r'. unfold get.
+  destruct (lenN (sdata s) <? id * ssize s + ssize s); cbn beta iota zeta;
+    match goal with |- context [if ?c then _ else _] => destruct c eqn:Ec end; try discriminate;
+    intro E; injection E as <- <- _; cbn [ssize]; (split; [|reflexivity]);
+    unfold takeN; rewrite lenN_length, firstn_length; apply N.ltb_ge in Ec; lia.
 Qed.
 
-Lemma tail_length : forall v n, wf v -> n <= v_len v ->
-  length (vec_tail_rev v n) = N.to_nat n.
+Lemma get_chain_loop_bound : forall fats remaining s id r c s' r',
+  get_chain_loop remaining s id fats r = Ok (c, s', r') ->
+  lenN c <= N.of_nat remaining * ssize s /\ ssize s' = ssize s.
 Proof.
-  intros v n H Hn. unfold vec_tail_rev. rewrite firstn_length. unfold wf in H. lia.
+  intros fats. induction remaining as [|k IH]; intros s id r c s' r'; cbn [get_chain_loop];
+    destruct (id =? ENDOFCHAIN).
+  - intro E. injection E as <- <- _. cbn. split; [lia|reflexivity].
+  - discriminate.
+  - intro E. injection E as <- <- _. rewrite lenN_length. cbn [length]. split; [lia|reflexivity].
+  - destruct (get s id r) as [[[sl s1] r1]|e| |] eqn:Eg; cbn [obind]; try discriminate.
+    apply get_slice_bound in Eg as [Hsl Hs1].
+    destruct (nth_error fats (N.to_nat id)) as [nx|]; [|discriminate].
+    destruct (get_chain_loop k s1 nx fats r1) as [[[rest s2] r2]|e| |] eqn:El; cbn [obind]; try discriminate.
+    apply IH in El as [Hr Hs2]. intro E. injection E as <- <- _.
+    rewrite lenN_length, app_length. rewrite !lenN_length in *. split; [|congruence].
+    rewrite Hs1 in Hr. lia.
 Qed.
 
-Lemma land_lt_pow2 : forall a b k, b < 2 ^ k -> N.land a b < 2 ^ k.
+Theorem get_chain_alloc_bound : forall s id fats r len c s' r',
+  get_chain s id fats r len = Ok (c, s', r') ->
+  lenN c <= N.of_nat (length fats) * ssize s /\
+  (0 < len -> lenN c <= len) /\
+  chain_capacity s fats len <= N.of_nat (length fats) * ssize s.
 Proof.
-  intros a b k Hb.
-  assert (E : N.land b (N.ones k) = b) by (rewrite N.land_ones; apply N.mod_small; exact Hb).
-  rewrite <- E, N.land_assoc, N.land_ones. apply N.mod_lt, N.pow_nonzero. lia.
-Qed.
-
-Lemma shiftr_land_bound : forall t c k m, c < 2 ^ m -> k <= m ->
-  N.shiftr (N.land t c) k < 2 ^ (m - k).
-Proof.
-  intros t c k m Hc Hk. rewrite N.shiftr_div_pow2.
-  apply N.div_lt_upper_bound; [apply N.pow_nonzero; lia|].
-  rewrite <- N.pow_add_r. replace (k + (m - k)) with m by lia.
-  apply land_lt_pow2, Hc.
-Qed.
-
-(* the fields of a copy token at a position inside a chunk: never a panic, and within the limits
-   the copy statements rely on — for EVERY token value *)
-Lemma copy_token_fields_total : forall d t, d <= 4096 ->
-  exists len off, copy_token_fields d t = Ok (len, off) /\ 3 <= len /\ 1 <= off <= 4096.
-Proof.
-  intros d t Hd. unfold copy_token_fields. rewrite (bit_count_of_spec d) by lia.
-  cbn [of_option obind]. destruct (spec_bit_count_bounds d Hd) as [Hb _].
-  set (bc := spec_bit_count d) in *. clearbody bc.
-  eexists _, _. split; [reflexivity|]. split; [lia|]. split; [lia|].
-  assert (Hx : N.lxor 65535 (N.shiftr 65535 bc) < 2 ^ 16).
-  { assert (bc = 4 \/ bc = 5 \/ bc = 6 \/ bc = 7 \/ bc = 8 \/ bc = 9 \/ bc = 10 \/ bc = 11 \/
-            bc = 12) as C by lia.
-    repeat destruct C as [C|C]; subst bc; vm_compute; reflexivity. }
-  pose proof (shiftr_land_bound t (N.lxor 65535 (N.shiftr 65535 bc)) (16 - bc) 16 Hx ltac:(lia)) as Hs.
-  replace (16 - (16 - bc)) with bc in Hs by lia.
-  assert (2 ^ bc <= 2 ^ 12) by (apply N.pow_le_mono_r; lia).
-  change (2 ^ 12) with 4096 in *. lia.
-Qed.
-
-(* while len > offset { … }: the loop copies whole blocks of [offset] bytes; it ends with the
-   remaining length, everything that was copied is accounted for *)
-Lemma copy_loop_total : forall fuel len off res,
-  wf res -> 1 <= off <= 4096 -> off <= v_len res -> (N.to_nat len <= fuel)%nat -> 1 <= len ->
-  exists len' res', copy_loop fuel len off res = Ok (len', res') /\ wf res' /\
-    v_len res' + len' = v_len res + len /\ 1 <= len' <= off /\ off <= v_len res'.
-Proof.
-  induction fuel as [|f IH]; intros len off res Hw Ho Hv Hf Hl; [lia|].
-  cbn [copy_loop]. destruct (N.ltb_spec off len) as [Hlt|Hge].
-  - destruct (N.ltb_spec 4096 off) as [?|_]; [lia|].
-    destruct (N.ltb_spec (v_len res) off) as [?|_]; [lia|].
-    pose proof (tail_length res off Hw Hv) as Ht.
-    destruct (IH (len - off) off (vec_extend_rev res (vec_tail_rev res off))) as (l' & r' & E & W & A & B & C).
-    + apply wf_extend, Hw.
-    + exact Ho.
-    + unfold vec_extend_rev. cbn [v_len]. lia.
-    + lia.
-    + lia.
-    + exists l', r'. split; [exact E|]. split; [exact W|].
-      unfold vec_extend_rev in A, C. cbn [v_len] in A, C. rewrite Ht in A. lia.
-  - exists len, res. repeat split; auto; lia.
-Qed.
-
-Lemma copy_tail_total : forall len off res,
-  wf res -> off <= v_len res -> len <= off -> len <= 4096 ->
-  exists res', copy_tail len off res = Ok res' /\ wf res' /\ v_len res' = v_len res + len.
-Proof.
-  intros len off res Hw Hv Hl H4. unfold copy_tail.
-  destruct (N.ltb_spec 4096 len) as [?|_]; [lia|].
-  destruct (N.ltb_spec (v_len res) off) as [?|_]; [lia|].
-  destruct (N.ltb_spec off len) as [?|_]; [lia|].
-  eexists. split; [reflexivity|]. split; [apply wf_extend, Hw|].
-  unfold vec_extend_rev. cbn [v_len]. rewrite skipn_length, (tail_length res off Hw Hv). lia.
-Qed.
-
-(* the state of a chunk under decompression: output well formed, the chunk has produced at most
-   4096 bytes so far, the input only shrinks *)
-Definition inv (start : N) (n : nat) (st : cstate) : Prop :=
-  wf (st_res st) /\ start <= v_len (st_res st) /\ v_len (st_res st) - start <= 4096 /\
-  (length (st_in st) <= n)%nat.
-
-Definition fine_h (start : N) (n : nat) (o : outcome cstate) : Prop :=
-  match o with
-  | Ok st => inv start n st
-  | Err _ => True
-  | Panic => False
-  | OutOfFuel => False
-  end.
-
-Lemma do_literal_h_fine : forall start st, inv start (length (st_in st)) st ->
-  fine_h start (length (st_in st)) (do_literal_h start st).
-Proof.
-  intros start [s res clen] (Hw & Hs & Hd & _). cbn [st_in st_res] in *.
-  unfold do_literal_h, decomp_len_of. cbn [st_in st_res st_clen].
-  destruct (N.ltb_spec (v_len res) start) as [?|_]; [lia|]. cbn [obind].
-  destruct (N.leb_spec 4096 (v_len res - start)) as [?|Hlt]; [exact I|].
-  destruct s as [|b s]; [exact I|]. cbn [fine_h]. unfold inv. cbn [st_in st_res length].
-  split; [apply wf_push, Hw|]. unfold vec_push. cbn [v_len]. lia.
-Qed.
-
-Lemma do_copy_h_fine : forall start st, inv start (length (st_in st)) st ->
-  fine_h start (length (st_in st)) (do_copy_h start st).
-Proof.
-  intros start [s res clen] (Hw & Hs & Hd & _). cbn [st_in st_res] in *.
-  unfold do_copy_h, decomp_len_of. cbn [st_in st_res st_clen].
-  destruct s as [|a [|b s]]; cbn [read_u16_h obind]; [exact I|exact I|].
-  destruct (N.ltb_spec (v_len res) start) as [?|_]; [lia|]. cbn [obind].
-  destruct (copy_token_fields_total (v_len res - start) (a + 256 * b) Hd) as (len & off & E & Hl & Ho).
-  rewrite E. cbn [obind].
-  destruct (N.ltb_spec 4096 (v_len res - start + len)) as [?|Hfit]; [exact I|].
-  destruct (N.ltb_spec (v_len res) off) as [?|Hoff]; [exact I|].
-  destruct (copy_loop_total (N.to_nat len) len off res Hw Ho Hoff (le_n _) ltac:(lia))
-    as (len' & res1 & E1 & W1 & A1 & B1 & C1).
-  rewrite E1. cbn [obind].
-  destruct (copy_tail_total len' off res1 W1 C1 ltac:(lia) ltac:(lia)) as (res2 & E2 & W2 & A2).
-  rewrite E2. cbn [obind fine_h]. unfold inv. cbn [st_in st_res skipn length].
-  split; [exact W2|]. lia.
-Qed.
-
-Lemma token_loop_h_fine : forall n bit_index flags chunk_size start st,
-  inv start (length (st_in st)) st ->
-  match token_loop_h n bit_index flags chunk_size start st with
-  | Ok (_, st') => inv start (length (st_in st)) st'
-  | Err _ => True
-  | _ => False
-  end.
-Proof.
-  induction n as [|n IH]; intros bit_index flags chunk_size start st Hi; cbn [token_loop_h]; [exact Hi|].
-  destruct (chunk_size <? st_clen st); [exact Hi|].
-  set (o := if N.land flags (N.shiftl 1 bit_index) =? 0 then do_literal_h start st else do_copy_h start st).
-  assert (Ho : fine_h start (length (st_in st)) o).
-  { unfold o. destruct (_ =? 0); [apply do_literal_h_fine|apply do_copy_h_fine]; exact Hi. }
-  destruct o as [st'|e| |]; cbn [obind fine_h] in *; try exact I; try contradiction.
-  assert (Hi' : inv start (length (st_in st')) st').
-  { destruct Ho as (A & B & C & D). repeat split; auto. }
-  specialize (IH (bit_index + 1) flags chunk_size start st' Hi').
-  destruct (token_loop_h n (bit_index + 1) flags chunk_size start st') as [[brk st'']|e| |]; auto.
-  destruct Ho as (_ & _ & _ & D). destruct IH as (A & B & C & D'). repeat split; auto. lia.
-Qed.
-
-Lemma chunk_loop_h_fine : forall fuel chunk_size start st,
-  (length (st_in st) < fuel)%nat -> inv start (length (st_in st)) st ->
-  fine_h start (length (st_in st)) (chunk_loop_h fuel chunk_size start st).
-Proof.
-  induction fuel as [|f IH]; intros chunk_size start [s res clen] Hf Hi; [lia|].
-  cbn [st_in] in *. cbn [chunk_loop_h st_in st_res st_clen].
-  destruct s as [|flags s]; [exact Hi|].
-  destruct (chunk_size <? clen); [exact Hi|].
-  assert (Hi1 : inv start (length s) (mkst s res (clen + 1))).
-  { destruct Hi as (A & B & C & _). repeat split; auto. }
-  pose proof (token_loop_h_fine 8 0 flags chunk_size start (mkst s res (clen + 1)) Hi1) as Ht.
-  cbn [st_in] in Ht.
-  destruct (token_loop_h 8 0 flags chunk_size start (mkst s res (clen + 1))) as [[brk st']|e| |];
-    cbn [obind fine_h] in *; try exact I; try contradiction.
-  destruct Ht as (A & B & C & D).
-  destruct brk.
-  - cbn [fine_h]. repeat split; auto. cbn [length]. lia.
-  - assert (Hi' : inv start (length (st_in st')) st') by (repeat split; auto).
-    cbn [length] in Hf.
-    specialize (IH chunk_size start st' ltac:(lia) Hi').
-    destruct (chunk_loop_h f chunk_size start st') as [st''|e| |]; cbn [fine_h] in *; auto.
-    destruct IH as (A' & B' & C' & D'). repeat split; auto. cbn [length]. lia.
-Qed.
-
-(* the whole container: never a panic, the fuel suffices, and output stays within 2048 bytes per
-   input byte (a chunk takes at least its two header bytes and yields at most 4096 bytes) *)
-Lemma chunks_loop_h_fine : forall fuel s res, (length s < fuel)%nat -> wf res ->
-  match chunks_loop_h fuel s res with
-  | Ok res' => wf res' /\ v_len res' <= v_len res + 2048 * N.of_nat (length s)
-  | Err _ => True
-  | _ => False
-  end.
-Proof.
-  induction fuel as [|f IH]; intros s res Hf Hw; [lia|].
-  cbn [chunks_loop_h]. destruct s as [|a s]; [split; [exact Hw|lia]|].
-  destruct s as [|b s]; cbn [read_u16_h obind skipn]; [exact I|]. cbn [length] in Hf.
-  destruct (negb _); [exact I|]. destruct (_ =? 0).
-  - destruct (_ <? CHUNK) eqn:Eb; [exact I|].
-    set (blk := firstn (N.to_nat CHUNK) s) in *.
-    specialize (IH (skipn (N.to_nat CHUNK) s) (vec_extend_rev res (rev_append blk []))).
-    assert (Hlen : (length (skipn (N.to_nat CHUNK) s) <= length s)%nat) by (rewrite skipn_length; lia).
-    specialize (IH ltac:(lia) (wf_extend _ _ Hw)).
-    destruct (chunks_loop_h f _ _) as [res'|e| |]; auto.
-    destruct IH as [W B]. split; [exact W|].
-    unfold vec_extend_rev in B. cbn [v_len] in B.
-    rewrite rev_append_rev, app_nil_r, rev_length in B.
-    assert (length blk <= N.to_nat CHUNK)%nat by (unfold blk; rewrite firstn_length; lia).
-    unfold CHUNK in *. cbn [length]. lia.
-  - assert (Hi : inv (v_len res) (length s) (mkst s res 0)).
-    { repeat split; auto; cbn [st_res st_in]; lia. }
-    pose proof (chunk_loop_h_fine f (N.land (a + 256 * b) 4095) (v_len res) (mkst s res 0)) as Hc.
-    cbn [st_in] in Hc. specialize (Hc ltac:(lia) Hi).
-    destruct (chunk_loop_h f _ _ _) as [st|e| |]; cbn [obind fine_h] in *; try exact I; try contradiction.
-    destruct Hc as (A & B & C & D).
-    specialize (IH (st_in st) (st_res st) ltac:(lia) A).
-    destruct (chunks_loop_h f (st_in st) (st_res st)) as [res'|e| |]; auto.
-    destruct IH as [W B']. split; [exact W|]. cbn [length]. lia.
-Qed.
-
-Lemma vec_to_list_length : forall v, length (vec_to_list v) = length (v_rev v).
-Proof. intro v. unfold vec_to_list. rewrite rev_append_rev, app_nil_r. apply rev_length. Qed.
-
-Theorem decompress_h_total : forall s : list N,
-  decompress_h s <> Panic /\ decompress_h s <> OutOfFuel.
-Proof.
-  intro s. unfold decompress_h, decompress_h_fuel. destruct s as [|sig s]; [split; discriminate|].
-  destruct (negb _); [split; discriminate|].
-  pose proof (chunks_loop_h_fine (length (sig :: s)) s vec_empty ltac:(cbn [length]; lia) wf_empty) as H.
-  destruct (chunks_loop_h _ s vec_empty); cbn [obind]; try contradiction; split; discriminate.
-Qed.
-
-Theorem decompress_h_output_bound : forall (s out : list N),
-  decompress_h s = Ok out -> N.of_nat (length out) <= 2048 * N.of_nat (length s).
-Proof.
-  intros s out. unfold decompress_h, decompress_h_fuel. destruct s as [|sig s]; [discriminate|].
-  destruct (negb _); [discriminate|].
-  pose proof (chunks_loop_h_fine (length (sig :: s)) s vec_empty ltac:(cbn [length]; lia) wf_empty) as H.
-  destruct (chunks_loop_h _ s vec_empty) as [res| | |]; cbn [obind]; try discriminate.
-  intro E. injection E as <-. destruct H as [W B]. rewrite vec_to_list_length.
-  unfold wf in W. cbn [v_len vec_empty length] in *. lia.
-Qed.
-
-(* any fuel not below the input length behaves like [decompress_h]'s own *)
-Theorem decompress_h_alloc_bound : forall (s out : list N),
-  decompress_h s = Ok out -> N.of_nat (length out) + 4096 <= decompress_alloc_bound s.
-Proof.
-  intros s out H. apply decompress_h_output_bound in H. unfold decompress_alloc_bound. lia.
-Qed.
-
-(* ========================================================================================== *)
-(* 2. Sectors::get / get_chain                                                                  *)
-(* ========================================================================================== *)
-Lemma sector_h_total : forall body size id,
-  match sector_h body size id with
-  | Ok sec => N.of_nat (length sec) <= size
-  | Err _ => True
-  | _ => False
-  end.
-Proof.
-  intros body size id. unfold sector_h. destruct (_ <? _); [exact I|].
-  rewrite firstn_length. lia.
-Qed.
-
-(* the walk visits at most [remaining] sectors and then stops with an error: it returns on EVERY
-   allocation table, cyclic ones included, and what it gathered is bounded by the table *)
-Lemma chain_walk_h_total : forall remaining body size fats sid chain,
-  match chain_walk_h remaining body size fats sid chain with
-  | Ok out => N.of_nat (length out) <= N.of_nat (length chain) + N.of_nat remaining * size
-  | Err _ => True
-  | _ => False
-  end.
-Proof.
-  induction remaining as [|r IH]; intros body size fats sid chain; cbn [chain_walk_h].
-  - destruct (sid =? ENDOFCHAIN); [lia|exact I].
-  - destruct (sid =? ENDOFCHAIN); [lia|].
-    pose proof (sector_h_total body size sid) as Hs.
-    destruct (sector_h body size sid) as [sec|e| |]; cbn [obind]; try exact I; try contradiction.
-    destruct (nth_N fats sid) as [next|]; [|exact I].
-    specialize (IH body size fats next (chain ++ sec)).
-    destruct (chain_walk_h r body size fats next (chain ++ sec)); auto.
-    rewrite app_length in IH. lia.
-Qed.
-
-Lemma take_N_length : forall l n,
-  N.of_nat (length (take_N l n)) <= n /\ (length (take_N l n) <= length l)%nat.
-Proof.
-  induction l as [|x t IH]; intro n; cbn [take_N length]; [lia|].
-  destruct (N.eqb_spec n 0) as [->|Hn]; cbn [length]; [lia|].
-  destruct (IH (n - 1)) as [A B]. lia.
-Qed.
-
-Theorem get_chain_h_total : forall body size fats start len,
-  get_chain_h body size fats start len <> Panic /\
-  get_chain_h body size fats start len <> OutOfFuel.
-Proof.
-  intros. unfold get_chain_h.
-  pose proof (chain_walk_h_total (length fats) body size fats start []) as H.
-  destruct (chain_walk_h _ _ _ _ _ _); cbn [obind]; try contradiction; split; discriminate.
-Qed.
-
-(* the stream handed back never exceeds what the allocation table can address, nor the length
-   that was asked for; the capacity reserved up front obeys the same bound *)
-Theorem get_chain_h_bound : forall body size fats start len out,
-  get_chain_h body size fats start len = Ok out ->
-  N.of_nat (length out) <= N.of_nat (length fats) * size /\
-  (0 < len -> N.of_nat (length out) <= len) /\
-  chain_capacity_h size fats len <= N.of_nat (length fats) * size.
-Proof.
-  intros body size fats start len out. unfold get_chain_h.
-  pose proof (chain_walk_h_total (length fats) body size fats start []) as H.
-  destruct (chain_walk_h _ _ _ _ _ _) as [chain| | |]; cbn [obind]; try discriminate.
-  intro E. injection E as <-. cbn [length] in H.
+  intros s id fats r len c s' r'. unfold get_chain.
+  destruct (get_chain_loop (length fats) s id fats r) as [[[c0 s1] r1]|e| |] eqn:El; cbn [obind]; try discriminate.
+  apply get_chain_loop_bound in El as [Hb _].
+  intro E. injection E as <- <- _. unfold truncate, takeN.
   split; [|split].
-  - destruct (0 <? len); [destruct (take_N_length chain len)|]; lia.
-  - intro Hl. destruct (N.ltb_spec 0 len) as [_|?]; [|lia]. destruct (take_N_length chain len). lia.
-  - unfold chain_capacity_h. destruct (0 <? len); lia.
+  - destruct ((0 <? len) && (len <? lenN c0)); [|exact Hb].
+    rewrite lenN_length, firstn_length. rewrite lenN_length in Hb. lia.
+  - intro Hl. destruct (N.ltb_spec 0 len) as [_|?]; [|lia]. cbn [andb].
+    destruct (N.ltb_spec len (lenN c0)) as [Hlt|Hge]; [|exact Hge].
+    rewrite lenN_length, firstn_length. lia.
+  - unfold chain_capacity. destruct (0 <? len); lia.
 Qed.
 
-(* a table whose chain comes back on itself: the walk ends with the cycle error (non-vacuity of
-   the termination claim: sector 0 points to sector 0) *)
-Example get_chain_h_self_loop :
-  get_chain_h (repeat 7 512) 512 [0] 0 0 = Err E_CYCLE.
-Proof. vm_compute. reflexivity. Qed.
-
-Example get_chain_h_two_cycle :
-  get_chain_h (repeat 7 1024) 512 [1; 0] 0 100 = Err E_CYCLE.
-Proof. vm_compute. reflexivity. Qed.
-
-Example get_chain_h_ok :
-  get_chain_h [1; 2; 3; 4; 5; 6] 4 [1; ENDOFCHAIN] 0 5 = Ok [1; 2; 3; 4; 5].
-Proof. vm_compute. reflexivity. Qed.
-
-(* ========================================================================================== *)
-(* 3. get_row_and_optional_column                                                               *)
-(* ========================================================================================== *)
-Lemma digit_bounds : forall c, is_digit c = true -> ch_0 <= c <= ch_9.
-Proof. intros c H. unfold is_digit in H. apply andb_prop in H. destruct H as [A B]. unfold ch_0, ch_9 in *. lia. Qed.
-Lemma upper_bounds : forall c, is_upper c = true -> ch_A <= c <= ch_Z.
-Proof. intros c H. unfold is_upper in H. apply andb_prop in H. destruct H as [A B]. unfold ch_A, ch_Z in *. lia. Qed.
-Lemma lower_bounds : forall c, is_lower c = true -> ch_a <= c <= ch_z.
-Proof. intros c H. unfold is_lower in H. apply andb_prop in H. destruct H as [A B]. unfold ch_a, ch_z in *. lia. Qed.
-
-Lemma scan_letter_h_total : forall base c s, base <= c ->
-  scan_letter_h base c s <> Panic /\ scan_letter_h base c s <> OutOfFuel.
+(* the capacity alone, for every declared length (a 64-bit field of a directory entry included) *)
+Theorem chain_capacity_bound : forall s fats len,
+  chain_capacity s fats len <= N.of_nat (length fats) * ssize s /\ chain_capacity s fats len <= len.
 Proof.
-  intros base c s Hc. unfold scan_letter_h, sub8.
-  destruct (s_readrow s); [destruct (s_row s =? 0)|]; cbn [obind];
-    try (split; discriminate);
-    destruct (N.ltb_spec c base); try lia; cbn [obind]; split; discriminate.
+  intros s fats len. unfold chain_capacity. destruct (N.ltb_spec 0 len); lia.
 Qed.
-
-Lemma scan_char_h_total : forall c s,
-  scan_char_h c s <> Panic /\ scan_char_h c s <> OutOfFuel.
-Proof.
-  intros c s. unfold scan_char_h.
-  destruct (is_digit c) eqn:Ed.
-  - destruct (s_readrow s); [|split; discriminate].
-    apply digit_bounds in Ed. unfold sub8. destruct (N.ltb_spec c ch_0); [lia|].
-    cbn [obind]. split; discriminate.
-  - destruct (is_upper c) eqn:Eu; [apply scan_letter_h_total, (upper_bounds c Eu)|].
-    destruct (is_lower c) eqn:El; [apply scan_letter_h_total, (lower_bounds c El)|].
-    split; discriminate.
-Qed.
-
-Lemma scan_loop_h_total : forall rs s,
-  scan_loop_h rs s <> Panic /\ scan_loop_h rs s <> OutOfFuel.
-Proof.
-  induction rs as [|c t IH]; intro s; cbn [scan_loop_h]; [split; discriminate|].
-  destruct (scan_char_h_total c s) as [A B].
-  destruct (scan_char_h c s) as [s'|e| |]; cbn [obind]; try congruence; [apply IH|split; discriminate].
-Qed.
-
-(* every byte string (indeed every list of numbers): an answer or an error, never a panic; and
-   an answer fits the u32 positions *)
-Theorem get_rc_h_total : forall range : list N,
-  get_rc_h range <> Panic /\ get_rc_h range <> OutOfFuel.
-Proof.
-  intro range. unfold get_rc_h.
-  destruct (scan_loop_h_total (rev range) scan_init) as [A B].
-  destruct (scan_loop_h (rev range) scan_init) as [s|e| |]; cbn [obind]; try congruence;
-    [|split; discriminate].
-  destruct (s_row s =? 0); [split; discriminate|].
-  destruct (U32MAX <? s_row s - 1); [split; discriminate|].
-  destruct (s_col s =? 0); [split; discriminate|].
-  destruct (U32MAX <? s_col s - 1); split; discriminate.
-Qed.
-
-Theorem get_rc_h_in_range : forall range row col,
-  get_rc_h range = Ok (row, col) ->
-  row <= U32MAX /\ match col with Some c => c <= U32MAX | None => True end.
-Proof.
-  intros range row col. unfold get_rc_h.
-  destruct (scan_loop_h (rev range) scan_init) as [s|e| |]; cbn [obind]; try discriminate.
-  destruct (s_row s =? 0); [discriminate|].
-  destruct (N.ltb_spec U32MAX (s_row s - 1)); [discriminate|].
-  destruct (s_col s =? 0).
-  - intro E. injection E as <- <-. split; [assumption|exact I].
-  - destruct (N.ltb_spec U32MAX (s_col s - 1)); [discriminate|].
-    intro E. injection E as <- <-. split; assumption.
-Qed.
-
-(* the hardening changed nothing the old code answered: wherever the model of the code BEFORE the
-   fix (Col26.get_row_and_optional_column, u32 arithmetic with overflow = Panic) returns Ok or Err,
-   the hardened function returns the same; only its Panic outcomes became errors *)
-Definition bounded (s : scan_state) : Prop :=
-  s_row s <= U32MAX /\ s_col s <= U32MAX /\ s_pow s <= U32MAX.
-
-Lemma sat64_small : forall x, x <= U32MAX -> sat64 x = x.
-Proof. intros x H. unfold sat64, U32MAX, U64MAX in *. lia. Qed.
-
-Lemma mul32_ok : forall a b r, mul32 a b = Ok r -> r = a * b /\ a * b <= U32MAX.
-Proof. intros a b r. unfold mul32. destruct (N.leb_spec (a * b) U32MAX); [|discriminate]. intro E. injection E as <-. auto. Qed.
-Lemma add32_ok : forall a b r, add32 a b = Ok r -> r = a + b /\ a + b <= U32MAX.
-Proof. intros a b r. unfold add32. destruct (N.leb_spec (a + b) U32MAX); [|discriminate]. intro E. injection E as <-. auto. Qed.
-
-Lemma obind_ok : forall A B (o : outcome A) (f : A -> outcome B) r,
-  (do x <- o; f x) = Ok r -> exists a, o = Ok a /\ f a = Ok r.
-Proof. intros A B o f r. destruct o; cbn [obind]; try discriminate. eauto. Qed.
-Lemma obind_err : forall A B (o : outcome A) (f : A -> outcome B) e,
-  (do x <- o; f x) = Err e -> o = Err e \/ exists a, o = Ok a /\ f a = Err e.
-Proof. intros A B o f e. destruct o; cbn [obind]; try discriminate; eauto. intro E. left. injection E as ->. reflexivity. Qed.
-
-Lemma scan_letter_same : forall base c s, base <= c -> bounded s ->
-  (forall s', scan_letter base c s = Ok s' -> scan_letter_h base c s = Ok s' /\ bounded s') /\
-  (forall e, scan_letter base c s = Err e -> scan_letter_h base c s = Err e).
-Proof.
-  intros base c s Hc (Br & Bc & Bp). unfold scan_letter, scan_letter_h, sub8.
-  destruct (N.ltb_spec c base) as [?|_]; [lia|].
-  destruct (s_readrow s) eqn:Er; [destruct (s_row s =? 0) eqn:E0|]; cbn [obind].
-  - split; [discriminate|]. intros e E. exact E.
-  - cbn [s_row s_col s_pow s_readrow]. split.
-    + intros s' H.
-      apply obind_ok in H. destruct H as (t & Ht & H). apply mul32_ok in Ht. destruct Ht as [-> Ht].
-      apply obind_ok in H. destruct H as (col' & Hc' & H). apply add32_ok in Hc'. destruct Hc' as [-> Hc'].
-      apply obind_ok in H. destruct H as (pow' & Hp & H). apply mul32_ok in Hp. destruct Hp as [-> Hp].
-      injection H as <-. unfold sadd64, smul64.
-      rewrite (sat64_small ((c - base + 1) * 1)) by exact Ht.
-      rewrite (sat64_small (s_col s + _)) by exact Hc'. rewrite (sat64_small (1 * 26)) by exact Hp.
-      split; [reflexivity|]. unfold bounded. cbn [s_row s_col s_pow]. auto.
-    + intros e H.
-      apply obind_err in H. destruct H as [H|(t & Ht & H)]; [unfold mul32 in H; destruct (_ <=? _); discriminate|].
-      apply obind_err in H. destruct H as [H|(c' & Hc' & H)]; [unfold add32 in H; destruct (_ <=? _); discriminate|].
-      apply obind_err in H. destruct H as [H|(p' & Hp' & H)]; [unfold mul32 in H; destruct (_ <=? _); discriminate|].
-      discriminate.
-  - split.
-    + intros s' H.
-      apply obind_ok in H. destruct H as (t & Ht & H). apply mul32_ok in Ht. destruct Ht as [-> Ht].
-      apply obind_ok in H. destruct H as (col' & Hc' & H). apply add32_ok in Hc'. destruct Hc' as [-> Hc'].
-      apply obind_ok in H. destruct H as (pow' & Hp & H). apply mul32_ok in Hp. destruct Hp as [-> Hp].
-      injection H as <-. unfold sadd64, smul64.
-      rewrite (sat64_small ((c - base + 1) * s_pow s)) by exact Ht.
-      rewrite (sat64_small (s_col s + _)) by exact Hc'. rewrite (sat64_small (s_pow s * 26)) by exact Hp.
-      split; [reflexivity|]. unfold bounded. cbn [s_row s_col s_pow]. auto.
-    + intros e H.
-      apply obind_err in H. destruct H as [H|(t & Ht & H)]; [unfold mul32 in H; destruct (_ <=? _); discriminate|].
-      apply obind_err in H. destruct H as [H|(c' & Hc' & H)]; [unfold add32 in H; destruct (_ <=? _); discriminate|].
-      apply obind_err in H. destruct H as [H|(p' & Hp' & H)]; [unfold mul32 in H; destruct (_ <=? _); discriminate|].
-      discriminate.
-Qed.
-
-Lemma scan_char_same : forall c s, bounded s ->
-  (forall s', scan_char c s = Ok s' -> scan_char_h c s = Ok s' /\ bounded s') /\
-  (forall e, scan_char c s = Err e -> scan_char_h c s = Err e).
-Proof.
-  intros c s Hb. unfold scan_char, scan_char_h.
-  destruct (is_digit c) eqn:Ed.
-  - destruct (s_readrow s); [|split; [discriminate|auto]].
-    apply digit_bounds in Ed. unfold sub8. destruct (N.ltb_spec c ch_0) as [?|_]; [lia|]. cbn [obind].
-    destruct Hb as (Br & Bc & Bp). split.
-    + intros s' H.
-      apply obind_ok in H. destruct H as (t & Ht & H). apply mul32_ok in Ht. destruct Ht as [-> Ht].
-      apply obind_ok in H. destruct H as (r' & Hr' & H). apply add32_ok in Hr'. destruct Hr' as [-> Hr'].
-      apply obind_ok in H. destruct H as (pow' & Hp & H). apply mul32_ok in Hp. destruct Hp as [-> Hp].
-      injection H as <-. unfold sadd64, smul64.
-      rewrite (sat64_small ((c - ch_0) * s_pow s)) by exact Ht.
-      rewrite (sat64_small (s_row s + _)) by exact Hr'. rewrite (sat64_small (s_pow s * 10)) by exact Hp.
-      split; [reflexivity|]. unfold bounded. cbn [s_row s_col s_pow]. auto.
-    + intros e H.
-      apply obind_err in H. destruct H as [H|(t & Ht & H)]; [unfold mul32 in H; destruct (_ <=? _); discriminate|].
-      apply obind_err in H. destruct H as [H|(c' & Hc' & H)]; [unfold add32 in H; destruct (_ <=? _); discriminate|].
-      apply obind_err in H. destruct H as [H|(p' & Hp' & H)]; [unfold mul32 in H; destruct (_ <=? _); discriminate|].
-      discriminate.
-  - destruct (is_upper c) eqn:Eu; [apply scan_letter_same; [apply (upper_bounds c Eu)|exact Hb]|].
-    destruct (is_lower c) eqn:El; [apply scan_letter_same; [apply (lower_bounds c El)|exact Hb]|].
-    split; [discriminate|auto].
-Qed.
-
-Lemma scan_loop_same : forall rs s, bounded s ->
-  (forall s', scan_loop rs s = Ok s' -> scan_loop_h rs s = Ok s' /\ bounded s') /\
-  (forall e, scan_loop rs s = Err e -> scan_loop_h rs s = Err e).
-Proof.
-  induction rs as [|c t IH]; intros s Hb; cbn [scan_loop scan_loop_h].
-  - split; [intros s' E; injection E as <-; auto|discriminate].
-  - destruct (scan_char_same c s Hb) as [Hok Herr]. split.
-    + intros s' H. apply obind_ok in H. destruct H as (s1 & H1 & H).
-      destruct (Hok s1 H1) as [E1 B1]. rewrite E1. cbn [obind]. apply (IH s1 B1), H.
-    + intros e H. apply obind_err in H. destruct H as [H|(s1 & H1 & H)].
-      * rewrite (Herr e H). reflexivity.
-      * destruct (Hok s1 H1) as [E1 B1]. rewrite E1. cbn [obind]. apply (IH s1 B1), H.
-Qed.
-
-Lemma bounded_init : bounded scan_init.
-Proof. unfold bounded, scan_init, U32MAX. cbn [s_row s_col s_pow]. lia. Qed.
-
-Theorem get_rc_h_preserves : forall range,
-  (forall r, get_row_and_optional_column range = Ok r -> get_rc_h range = Ok r) /\
-  (forall e, get_row_and_optional_column range = Err e -> get_rc_h range = Err e).
-Proof.
-  intro range. unfold get_row_and_optional_column, get_rc_h.
-  destruct (scan_loop_same (rev range) scan_init bounded_init) as [Hok Herr]. split.
-  - intros r H. apply obind_ok in H. destruct H as (s & Hs & H).
-    destruct (Hok s Hs) as [E (Br & Bc & _)]. rewrite E. cbn [obind].
-    destruct (s_row s =? 0); [discriminate|].
-    destruct (N.ltb_spec U32MAX (s_row s - 1)); [lia|].
-    destruct (s_col s =? 0); [exact H|].
-    destruct (N.ltb_spec U32MAX (s_col s - 1)); [lia|exact H].
-  - intros e H. apply obind_err in H. destruct H as [H|(s & Hs & H)].
-    + rewrite (Herr e H). reflexivity.
-    + destruct (Hok s Hs) as [E (Br & Bc & _)]. rewrite E. cbn [obind].
-      destruct (s_row s =? 0); [exact H|discriminate].
-Qed.
-
-(* the inputs on which the old code overflowed (a Panic of its model) are errors now *)
-Example get_rc_h_overflow_is_error :
-  get_row_and_optional_column [65; 57; 57; 57; 57; 57; 57; 57; 57; 57; 57; 57] = Panic /\
-  get_rc_h [65; 57; 57; 57; 57; 57; 57; 57; 57; 57; 57; 57] = Err E_OUT_OF_RANGE /\
-  get_rc_h [65; 49] = Ok (0, Some 0).
-Proof. vm_compute. repeat split; reflexivity. Qed.
